@@ -463,5 +463,5 @@ var commonAssumptions = []string{
 
 func TestPropFaults(t *testing.T) {
 	kit.Run(t, kit.Spec[FaultCase]{ID: "C32", Name: "faults", Rule: faultRule, Gen: genFaultCase, Check: checkFault,
-		Quick: 1500, Thorough: 9000, Assumptions: commonAssumptions})
+		Quick: 800, Thorough: 6000, Assumptions: commonAssumptions})
 }
